@@ -1238,6 +1238,85 @@ def generate(rng, size=1.0, loose=False):
     return prog, g.features
 
 
+def callshape_program(rng):
+    """Boundary stream for the calling convention: small procedures (0-3 locals, so small frames) whose
+    body is one call - user function, user procedure or system call - with 1-5 actuals drawn from the
+    shapes constant / variable / one temporary `a + (b + c)` / several temporaries
+    `((a + b) + (c + d)) + (e + f)` / deeper left- and right-nested sums / a call / a call plus a
+    temporary, in every order; the callee makes every formal observable."""
+    r = rng
+    gl = ["a", "b", "c", "d", "e", "f"]
+    vals = [1 + r.below(9) for _ in gl]
+
+    def v():
+        return ["name", r.choice(gl)]
+
+    def pair():
+        return ["bin", r.choice(["plus", "plus", "minus"]), v(), v(), False]
+
+    def shape(k):
+        if k == "const":
+            return lit(r.below(50))
+        if k == "var":
+            return v()
+        if k == "temp1":
+            return ["bin", "plus", v(), pair(), False]
+        if k == "temp2":
+            return ["bin", "plus", ["bin", "plus", pair(), pair(), False], pair(), False]
+        if k == "temp3":
+            return ["bin", "plus", ["bin", "plus", ["bin", "plus", pair(), pair(), False], pair(), False], pair(), False]
+        if k == "right":
+            return ["bin", "plus", v(), ["bin", "plus", v(), ["bin", "minus", v(), pair(), False], False], False]
+        if k == "call":
+            return ["call", "h", [v()]]
+        if k == "calltemp":
+            return ["bin", "plus", ["call", "h", [pair()]], pair(), False]
+        if k == "rel":
+            return ["bin", r.choice(["ls", "eq", "ge"]), pair(), pair(), False]
+        raise ValueError(k)
+
+    kinds = ["const", "var", "temp1", "temp2", "temp2", "temp3", "right", "call", "calltemp", "rel"]
+    n = 1 + r.below(5)
+    args = [shape(r.choice(kinds)) for _ in range(n)]
+    fnames = ["p%d" % i for i in range(n)]
+    globals_ = [["var", g] for g in gl]
+    procs = []
+    procs.append({"kind": "func", "name": "h", "formals": [["val", "x"]], "locals": [],
+                  "body": ["ret", ["bin", "plus", ["name", "x"], num(1), False]]})
+    target = r.choice(["func", "proc", "put", "put", "exit", "get"])
+    obs = [["syscall", 1, [["name", f], num(0)]] for f in fnames]
+    if target == "func":
+        procs.append({"kind": "func", "name": "callee", "formals": [["val", f] for f in fnames], "locals": [],
+                      "body": ["seq", obs + [["ret", ["name", r.choice(fnames)]]]]})
+        call = ["syscall", 1, [["call", "callee", args], num(0)]]
+    elif target == "proc":
+        procs.append({"kind": "proc", "name": "callee", "formals": [["val", f] for f in fnames], "locals": [],
+                      "body": ["seq", obs] if len(obs) > 1 else obs[0]})
+        call = ["call", "callee", args]
+    elif target == "put":
+        args = [shape(r.choice(kinds)), shape(r.choice(["const", "temp1", "temp2", "temp3", "right", "rel"]))]
+        call = ["syscall", 1, args]
+    elif target == "exit":
+        call = ["syscall", 0, [args[0]]]
+    else:
+        call = ["seq", [["syscall", 1, [["syscall", 2, [shape(r.choice(["const", "temp2", "rel"]))]], num(0)]]]]
+    nloc = r.below(4)
+    locs = ["t%d" % i for i in range(nloc)]
+    body = [["assign", l, lit(r.below(9))] for l in locs]
+    body.append(call)
+    body += [["syscall", 1, [["name", l], num(0)]] for l in locs]
+    inner = {"kind": "proc", "name": "q", "formals": [], "locals": [["var", l] for l in locs], "body": ["seq", body]}
+    init = [["assign", g, lit(x)] for g, x in zip(gl, vals)]
+    if r.chance(1, 2):
+        procs.append(inner)
+        main = {"kind": "proc", "name": "main", "formals": [], "locals": [], "body": ["seq", init + [["call", "q", []]]]}
+    else:
+        main = {"kind": "proc", "name": "main", "formals": [], "locals": inner["locals"], "body": ["seq", init + body]}
+    procs.append(main)
+    feats = Counter({"stream:callshape": 1, "callshape:" + target: 1})
+    return {"globals": globals_, "procs": procs}, feats
+
+
 def gen_input(rng):
     n = rng.choice([0, 0, 1, 2, 3, 5, 8, 13])
     data = bytes(rng.choice([rng.below(256), 32 + rng.below(95), 255, 0, 10, 254]) for _ in range(n))
